@@ -390,15 +390,15 @@ benign('C11', 'isotropic (C11,K) rewritten', ECF, "c44 = 3 * (c11 - K) / 4", "c4
 MILF = 'atomman/tools/miller.py'
 BOXF = 'atomman/core/Box.py'
 CSF = 'atomman/tools/crystalsystem.py'
-mutant('C16', 'vector3to4 wrong third', MILF, "newindices[...,1] = (2 * indices[...,1] - indices[...,0]) / 3", "newindices[...,1] = (2 * indices[...,1] + indices[...,0]) / 3", 'MAP34')
-mutant('C16', 'vector4to3 wrong combination', MILF, "newindices[...,0] = 2 * indices[...,0] + indices[...,1]", "newindices[...,0] = indices[...,0] + 2 * indices[...,1]", 'MAP34')
-mutant('C16', 'plane4to3 keeps i', MILF, "    newindices[...,2] = indices[...,3]\n\n    return newindices\n\ndef vector3to4", "    newindices[...,2] = indices[...,2]\n\n    return newindices\n\ndef vector3to4", 'MAP34')
-mutant('C16', 'vector3to4 integer buffer', MILF, "    newindices = np.empty(indices.shape[:-1] + (4,))\n    newindices[...,0] = (2 * indices", "    newindices = np.empty(indices.shape[:-1] + (4,), dtype=indices.dtype)\n    newindices[...,0] = (2 * indices", 'MAP34')
+mutant('C16', 'vector3to4 wrong third', MILF, "newindices[..., 1] = (2 * indices[..., 1] - indices[..., 0]) / 3", "newindices[..., 1] = (2 * indices[..., 1] + indices[..., 0]) / 3", 'MAP34')
+mutant('C16', 'vector4to3 wrong combination', MILF, "newindices[..., 0] = 2 * indices[..., 0] + indices[..., 1]", "newindices[..., 0] = indices[..., 0] + 2 * indices[..., 1]", 'MAP34')
+mutant('C16', 'plane4to3 keeps i', MILF, "    newindices[..., 1] = indices[..., 1]\n    newindices[..., 2] = indices[..., 3]\n", "    newindices[..., 1] = indices[..., 1]\n    newindices[..., 2] = indices[..., 2]\n", 'MAP34')
+mutant('C16', 'vector3to4 integer buffer', MILF, "    newindices = np.empty(indices.shape[:-1] + (4,))\n    newindices[..., 0] = (2 * indices", "    newindices = np.empty(indices.shape[:-1] + (4,), dtype=indices.dtype)\n    newindices[..., 0] = (2 * indices", 'MAP34')
 mutant('C16', 'h0l product instead of lcm', MILF, "m = np.lcm(indices[0], indices[2])", "m = indices[0] * indices[2]", 'PLANE-NORMAL')
 mutant('C16', 'hk0 sign from h only', MILF, "s = np.sign(indices[0] * indices[1])", "s = np.sign(indices[0])", 'PLANE-NORMAL')
 mutant('C16', '0kl vectors swapped', MILF, "a_uvw = np.array([0, -m / indices[1], m / indices[2]], dtype=int)\n                b_uvw = np.array([1, 0, 0], dtype=int)", "a_uvw = np.array([1, 0, 0], dtype=int)\n                b_uvw = np.array([0, -m / indices[1], m / indices[2]], dtype=int)", 'PLANE-NORMAL')
 mutant('C16', 'hkl second vector not in plane', MILF, "b_uvw = np.array([-m / indices[0], 0, m / indices[2]], dtype=int)", "b_uvw = np.array([-m / indices[0], 0, m / indices[1]], dtype=int)", 'PLANE-NORMAL')
-mutant('C16', 'centering i table entry', MILF, "lattice_vectors['i'] = np.array([[ 0.0,-1.0,-1.0],", "lattice_vectors['i'] = np.array([[ 0.0, 1.0,-1.0],", 'CENTERING')
+mutant('C16', 'centering i table entry', MILF, "lattice_vectors['i'] = np.array([[  0.0, -1.0, -1.0],", "lattice_vectors['i'] = np.array([[  0.0,  1.0, -1.0],", 'CENTERING')
 mutant('C16', 'reduce along first axis', MILF, "n = np.gcd.reduce(indices, axis=-1)", "n = np.gcd.reduce(indices, axis=0)", 'UTIL')
 mutant('C16', 'all_indices keeps origin', MILF, "indices = indices[np.abs(indices).sum(axis=1) != 0]", "indices = indices[indices.sum(axis=1) != 0]", 'UTIL')
 mutant('C16', 'fromstring fraction inverted', MILF, "fraction = float(terms[0]) / float(terms[1])", "fraction = float(terms[1]) / float(terms[0])", 'UTIL')
@@ -406,5 +406,5 @@ mutant('C16', 'fromstring angle bracket closer', MILF, "closeindex = value.index
 mutant('C16', 'istetragonal forgets a != c', BOXF, "        return (np.isclose(self.a, self.b, atol=atol, rtol=rtol)\n                and not np.isclose(self.a, self.c, atol=atol, rtol=rtol)", "        return (np.isclose(self.a, self.b, atol=atol, rtol=rtol)\n                and np.isclose(self.a, self.c, atol=atol, rtol=rtol)", 'FAMILY')
 mutant('C16', 'hexagonal constructor gamma 60', BOXF, "return cls(a=a, b=a, c=c, alpha=90, beta=90, gamma=120)", "return cls(a=a, b=a, c=c, alpha=90, beta=90, gamma=60)", 'FAMILY')
 mutant('C16', 'identify order: tetragonal before hexagonal and cubic', BOXF, "        if self.iscubic(rtol=rtol, atol=atol):\n            return 'cubic'\n        elif self.ishexagonal(rtol=rtol, atol=atol):\n            return 'hexagonal'", "        if self.ishexagonal(rtol=rtol, atol=atol):\n            return 'cubic'\n        elif self.iscubic(rtol=rtol, atol=atol):\n            return 'hexagonal'", 'FAMILY')
-benign('C16', 'vector3to4 thirds as multiplication', MILF, "newindices[...,0] = (2 * indices[...,0] - indices[...,1]) / 3", "newindices[...,0] = (2 * indices[...,0] - indices[...,1]) * (1 / 3)")
-benign('C16', 'h00 sign via product with one', MILF, "                s = np.sign(indices[0])\n                a_uvw = np.array([0, 1, 0], dtype=int)", "                s = np.sign(indices[0] * 1)\n                a_uvw = np.array([0, 1, 0], dtype=int)")
+benign('C16', 'vector3to4 thirds as multiplication', MILF, "newindices[..., 0] = (2 * indices[..., 0] - indices[..., 1]) / 3", "newindices[..., 0] = (2 * indices[..., 0] - indices[..., 1]) * (1 / 3)")
+benign('C16', 'h00 sign via product with one', MILF, "                    s = np.sign(indices[0])\n                    a_uvw = np.array([0, 1, 0], dtype=int)", "                    s = np.sign(indices[0] * 1)\n                    a_uvw = np.array([0, 1, 0], dtype=int)")
